@@ -6,7 +6,9 @@ package e5
 import (
 	"context"
 	"fmt"
+	"net/http"
 	"net/http/httptest"
+	"strconv"
 	"sync"
 	"time"
 
@@ -184,4 +186,36 @@ func group(source string, targets []map[string]string) *targetgroup.Group {
 		g.Targets = append(g.Targets, ls)
 	}
 	return g
+}
+
+// stampTransport adds the moment a probe leaves the explorer (client side) to the request: under heavy load the
+// target's handler may start seconds later, and attributing a probe to the period in which the HANDLER started
+// blames the wrong presence period of a target that left discovery and came back in between.
+type stampTransport struct{ inner http.RoundTripper }
+
+func (s stampTransport) RoundTrip(r *http.Request) (*http.Response, error) {
+	r2 := r.Clone(r.Context())
+	r2.Header.Set("X-Harness-Sent", strconv.FormatInt(time.Now().UnixNano(), 10))
+	return s.inner.RoundTrip(r2)
+}
+
+// stampClients wraps the HTTP clients of the given jobs (JobInfo.Cli is an exported field; the job objects are
+// re-created by every reload, so this is called again after each one).
+func (p *pipeline) stampClients(jobs ...string) {
+	for _, j := range jobs {
+		ji := p.sm.GetJob(j)
+		if ji == nil || ji.Cli == nil {
+			continue
+		}
+		if _, ok := ji.Cli.Transport.(stampTransport); ok {
+			continue
+		}
+		inner := ji.Cli.Transport
+		if inner == nil {
+			inner = http.DefaultTransport
+		}
+		cli := *ji.Cli
+		cli.Transport = stampTransport{inner: inner}
+		ji.Cli = &cli
+	}
 }
